@@ -351,6 +351,52 @@ def pipelined_relogin_work(item):
     return part
 
 
+def glob_case(item):
+    """file-system backends: a name (or a base directory) made of shell-pattern characters addresses exactly itself -
+    listing it never shows the contents of the directories the pattern would match"""
+    backend, where = item
+    from vf.rig import Rig
+    from vf.conform import parse_names
+    part = report.Partial()
+    problems = []
+    if where == "name":
+        rig = Rig(backend=backend, tree={"secret": {"hidden": b"x"}, "pub": {"p": b"1"}})
+        script = [("MKD [s]ecret", None), ("LIST [s]ecret", []), ("MLSD [s]ecret", []), ("CWD pub", None), ("MKD ../p?b", None),
+                  ("LIST ../p?b", []), ("MLSD /p?b", []), ("MKD /*", None), ("LIST /*", []), ("LIST /pub", ["p"])]
+    else:
+        def users(a, base):
+            return [a.User(base_path=base / "ftp[1]")]
+        rig = Rig(backend=backend, tree={"ftp[1]": {"mine": b"m"}, "ftp1": {"theirs": b"t"}}, users=users)
+        script = [("LIST", ["mine"]), ("MLSD /", ["mine"]), ("LIST /", ["mine"])]
+    try:
+        rig.ev(0, "@connect")
+        rig.ev(0, "USER anonymous")
+        for line, want in script:
+            if want is None:
+                rig.ev(0, line)
+                continue
+            rig.ev(0, "EPSV")
+            rig.ev(0, "@data")
+            r = rig.ev(0, line)
+            s0 = rig.sessions[0]
+            got = sorted(parse_names(line.split(" ")[0].lower(), s0.data.received)) if s0.data is not None else None
+            codes = [c for c, _ in (r or [])]
+            if codes[-1:] == ["226"] or codes[-1:] == ["200"]:
+                if got != sorted(want):
+                    problems.append({"kind": "listing-shows-another-location", "line": line, "got": got, "want": want})
+            part.transitions += 3
+        part.evaluations += 1
+        part.traces += 1
+        k = report.fp(["glob", backend, where])
+        part.states.add(k)
+        part.nontrivial.add(k)
+        for p_ in problems[:1]:
+            part.violation({"kind": p_["kind"], "backend": backend, "where": where}, {"problem": p_}, replay={"glob": list(item)})
+    finally:
+        rig.close()
+    return part
+
+
 def late_case(item):
     """the working directory changes between a transfer verb and the arrival of its data connection: the location
     actually addressed (and every backend call) must be the one the verb named when it arrived"""
@@ -422,6 +468,7 @@ def run(tier, seed, t0):
         for v in pp.violations:
             v["replay"] = {"pipelined_cwd": v["replay"]}
     parts += pparts
+    parts += report.pmap(glob_case, [(b, wh) for b in ("pathio", "async") for wh in ("name", "base")])
     parts += report.pmap(pipelined_relogin_work, [({"first": first, "cmd": cmd}, 1 if tier == "quick" else 2)
                                                   for first in ("alice", "bob") for cmd in PIPE_BEFORE_USER])
     part = report.merge_all(parts)
@@ -429,6 +476,7 @@ def run(tier, seed, t0):
                            "path_strings": nstrings, "cwds": len(cwds()), "bases": BASES},
               "wire": {"segments": WSEGS, "verbs": WVERBS, "cwd_histories": WCWD_HISTS,
                        "max_segments": "2 (3 for CWD/STOR/RETR)" if tier == "quick" else 3},
+              "shell_pattern_names": "file-system backends: names `[s]ecret`, `p?b`, `*` and a base directory `ftp[1]` next to `ftp1`",
               "pipelined_relogin": "a command and USER <other user> in one segment, path checks suspended (<= d completion-order "
                                    "deviations): no backend call and no change in the other user's base directory",
               "pipelined_cwd": "scenario of C04 (suspending path checks, pipelined CWD, <= d deviations): every mutating "
@@ -449,6 +497,10 @@ def run(tier, seed, t0):
 def replay(path):
     data = json.loads(open(path).read())
     rp = data["replay"]
+    if "glob" in rp:
+        part = glob_case(tuple(rp["glob"]))
+        print(json.dumps([v["detail"] for v in part.violations], indent=1, default=repr))
+        return 1 if part.violations else 0
     if "pipelined_relogin" in rp:
         from vf.simloop import Chooser
         res = run_pipelined_relogin(rp["pipelined_relogin"], Chooser(rp["choices"], rp["kinds"]))
